@@ -64,6 +64,10 @@ func genWop(c *core.Chooser) wop {
 		}
 	case 4:
 		o.b = c.Blob(c.Size(40, 0, 1), "any")
+		if c.Prob(1, 12) {
+			// a large body: sizes around the powers of two a size-dependent path would switch on
+			o.b = c.Blob([]int{255, 256, 1023, 1024, 1025, 4095, 4096, 5000}[c.Intn(8)], "any")
+		}
 	case 5:
 		o.b = c.Blob(c.Size(40, 0, 1), "any")
 	case 6:
@@ -199,7 +203,31 @@ func packetHistory(r *core.Run, failPos, maxOps int) {
 	}
 	m := &wmodel{}
 	var w *packet.Writer
-	if p := r.Call("packet.NewPacketWriter", func() { w = packet.NewPacketWriter() }); p != nil {
+	// the size hint a caller may pass: none, exactly what will be written, or something else
+	hint := -1
+	{
+		pre := &wmodel{}
+		for i, o := range ops {
+			pre.apply(o, i)
+		}
+		switch c.Pick(3, 3, 1, 1, 1) {
+		case 1:
+			hint = len(pre.b)
+		case 2:
+			hint = len(pre.b) + 4
+		case 3:
+			hint = max(0, len(pre.b)-1)
+		case 4:
+			hint = []int{0, 1, 64, 4096}[c.Intn(4)]
+		}
+	}
+	if p := r.Call("packet.NewPacketWriter", func() {
+		if hint >= 0 {
+			w = packet.NewPacketWriter(hint)
+		} else {
+			w = packet.NewPacketWriter()
+		}
+	}); p != nil {
 		r.Fail("C20", "panic", p.Frame, p.Kind, "%s", p.Value)
 		return
 	}
@@ -271,6 +299,26 @@ func packetHistory(r *core.Run, failPos, maxOps int) {
 		r.Fail("C20", "length-prefix", "Writer.BytesWithLength", "final", "BytesWithLength(): %d octets, prefix %d, model %d octets", len(outL), binary.BigEndian.Uint32(outL), len(m.b))
 		return
 	}
+	// Bytes() is an observer: the writer still holds what was written, a second look gives the same, and what the
+	// first look returned stays intact when the owner grows it in place or a later write follows
+	{
+		var out2 []byte
+		var e3 error
+		sp := out[len(out):cap(out)]
+		for i := range sp {
+			sp[i] = 0xEE
+		}
+		r.Call("packet.Writer.Bytes", func() { out2, e3 = w.Bytes() })
+		if e3 != nil || !bytes.Equal(out2, m.b) || w.Len() != len(m.b) || w.Written() != len(m.b) || w.HexString() != hex.EncodeToString(m.b) {
+			r.Fail("C20", "content", "Writer.Bytes", "second-look", "after Bytes() the writer reports Len()=%d Written()=%d and a second Bytes() of %d octets (err %v); %d octets were written", w.Len(), w.Written(), len(out2), e3, len(m.b))
+			return
+		}
+		r.Call("packet.Writer.WriteUint8", func() { w.WriteUint8(0x5a) })
+		if !bytes.Equal(out, m.b) || !bytes.Equal(out2, m.b) {
+			r.Fail("C20", "content", "Writer.Bytes", "changed-by-later-write", "octets returned by Bytes() changed when the writer was written to afterwards")
+			return
+		}
+	}
 	// --- mirrored read history
 	rd := packet.NewPacketReader(append([]byte(nil), out...))
 	for i, o := range ops {
@@ -295,6 +343,11 @@ func packetHistory(r *core.Run, failPos, maxOps int) {
 				if c.Bool() {
 					v := rd.ReadNBytes(len(o.b))
 					ok, got, site = bytes.Equal(v, o.b), hexN(v, 16), "Reader.ReadNBytes"
+					// the caller grows what it was given in place: the fields still to be read must not notice
+					sp := v[len(v):cap(v)]
+					for i := range sp {
+						sp[i] = 0xEE
+					}
 				} else {
 					v := make([]byte, len(o.b))
 					rd.ReadBytes(v)
